@@ -5,6 +5,7 @@
   (correspondence / oracle), never by a theorem.
 -/
 import Std.Data.HashMap
+import Std.Data.HashSet
 import UtreexoVerif.Spec.Forest
 
 namespace UtreexoVerif.Spec
@@ -38,9 +39,20 @@ def posOf (I : Index H) (h : H) : Option Pos := I.byLeaf.get? h
 
 /-- canonical proof positions of leaf target positions (same definition as
 `Forest.proofPositions`, on the index) -/
-def proofPositions (I : Index H) (targets : List Pos) : List Pos :=
+def proofPositionsSlow (I : Index H) (targets : List Pos) : List Pos :=
   let P := Forest.sortDedup (targets.flatMap (Forest.pathUp I.n (I.rows + 1)))
   Forest.sortDedup ((P.filter (fun p => !isRootPos I.n p)).map sib |>.filter (fun s => !P.contains s))
+
+/-- the same list (the set `{ sib p | p ∈ P, p no root, sib p ∉ P }` for the set `P` of all
+path positions, sorted by row then offset), computed with hash sets and a merge sort instead
+of the insertion sorts / list scans of the definition above: proofs of hundreds of targets in
+forests of thousands of leaves are asked for by the many-tree histories.  Driver only. -/
+def proofPositions (I : Index H) (targets : List Pos) : List Pos :=
+  if targets.length ≤ 8 then proofPositionsSlow I targets else
+  let P : HashSet Pos := targets.foldl (fun s t => (Forest.pathUp I.n (I.rows + 1) t).foldl (fun s p => s.insert p) s) {}
+  let S : HashSet Pos := P.fold (fun s p =>
+    if isRootPos I.n p then s else if P.contains (sib p) then s else s.insert (sib p)) {}
+  S.toList.mergeSort (fun a b => Forest.posLt a b || a == b)
 
 def canon (I : Index H) (leaves : List H) : Option (List Pos × List H) := do
   let targets ← leaves.mapM I.posOf
